@@ -602,7 +602,7 @@ def st_cases():
     dialect = st.sampled_from([None, None, {"label_alias": True}, {"drop": ["pdbx_PDB_ins_code"]}, {"drop": ["pdbx_PDB_model_num"]},
                                {"drop": ["label_alt_id", "pdbx_PDB_ins_code", "pdbx_PDB_model_num"]}])
     edit = st.one_of(st.none(), st.none(), st.tuples(st.sampled_from(["chain", "number"]), st.integers(0, 3)).map(list))
-    return st.fixed_dictionaries({"atoms": atomtab.st_tables(max_residues=4, max_atoms=5), "mod": mod, "null": st.sampled_from(["?", "."]),
+    return st.fixed_dictionaries({"atoms": atomtab.st_tables(max_residues=4, max_atoms=5, shared_positions=True), "mod": mod, "null": st.sampled_from(["?", "."]),
                                   "select": select, "dialect": dialect, "edit_copy": edit})
 
 
